@@ -202,7 +202,17 @@ def nestedBoundStep (O : Oracles) (c : ClassOpts) (fields : List (String × Fiel
       else if !r.overridden || r.superCall then (assocSet f (setElemAt cur k new) s, .ok)
       else (s, .ok)
 
-def stepB (bound : Bool) (tbl : List MethodRec) (O : Oracles) (c : ClassOpts)
+/-- `Structure.__delitem__` when it runs the class's `__validate__` hook after the deletion and restores
+    the instance when the hook raises (`dh = true`: proposed_fixes/C03-delitem-runs-hook.diff; today
+    `dh = false`: no hook on deletion).  Probed from the working tree (`Generated.delitemHook`). -/
+def delitemStepH (dh : Bool) (O : Oracles) (c : ClassOpts) (s : Attrs) (f : String) : Attrs × Outcome :=
+  if dh then
+    (match delitemStep c s f with
+      | (s', .ok) => if O.hookOk s' then (s', .ok) else (s, .err .valueErr)
+      | r => r)
+  else delitemStep c s f
+
+def stepB (bound dh : Bool) (tbl : List MethodRec) (O : Oracles) (c : ClassOpts)
     (fields : List (String × FieldDecl)) (s : Attrs) (op : Op) : Attrs × Outcome :=
   match bound, op with
   | true, .callNested f k m =>
@@ -217,6 +227,7 @@ def stepB (bound : Bool) (tbl : List MethodRec) (O : Oracles) (c : ClassOpts)
               | some r => nestedBoundStep O c fields s f k kind r m cur elem)
         | _, _ => (s, .err (match cur with | .dict _ => .keyErr | _ => .indexErr)))
     | _, _ => (s, .err (.other "AttributeError")))
+  | _, .delitem f => delitemStepH dh O c s f
   | _, op => step tbl O c fields s op
 
 /-! ### wrapper references kept across operations (stale wrappers)
@@ -243,6 +254,8 @@ inductive ROp where
   | take (f : String)
   /-- `w_i.<m>(args)` -/
   | callRef (i : Nat) (m : NOp)
+  /-- `x.f = w_i`: a kept wrapper object (whatever it holds by now) is assigned to a field -/
+  | assignRef (f : String) (i : Nat)
 deriving Repr, Inhabited
 
 structure MState where
@@ -334,10 +347,15 @@ def refCallStep (O : Oracles) (c : ClassOpts) (fields : List (String × FieldDec
       | .ok _ => (s, .ok))
   else callStep O c fields s f kind r m payload
 
-def stepR (bound : Bool) (tbl : List MethodRec) (O : Oracles) (c : ClassOpts)
+/-- a `take` that found no wrapper still occupies its position in the list of references (so that
+    the positions of later references do not depend on it); nothing can be called on it -/
+def deadRef (st : MState) (f : String) : MState :=
+  { st with refs := st.refs ++ [⟨f, "", .none, st.next⟩], next := st.next + 1 }
+
+def stepR (bound dh : Bool) (tbl : List MethodRec) (O : Oracles) (c : ClassOpts)
     (fields : List (String × FieldDecl)) (st : MState) : ROp → MState × Outcome
   | .plain op =>
-    let r := stepB bound tbl O c fields st.attrs op
+    let r := stepB bound dh tbl O c fields st.attrs op
     let b := match r.2 with
       | .ok => afterPlain bound tbl O c fields st op r.1
       | .err _ => (st.refs, st.cur)
@@ -351,8 +369,8 @@ def stepR (bound : Bool) (tbl : List MethodRec) (O : Oracles) (c : ClassOpts)
             | some o => ({ st with refs := st.refs ++ [⟨f, kind, cur, o⟩] }, .ok)
             | none => ({ st with refs := st.refs ++ [⟨f, kind, cur, st.next⟩], cur := (f, st.next) :: st.cur,
                                   next := st.next + 1 }, .ok))
-        | none => (st, .err (.other "AttributeError")))
-    | _, _ => (st, .err (.other "AttributeError"))
+        | none => (deadRef st f, .err (.other "AttributeError")))
+    | _, _ => (deadRef st f, .err (.other "AttributeError"))
   | .callRef i m =>
     match st.refs[i]? with
     | none => (st, .err (.other "AttributeError"))
@@ -368,12 +386,24 @@ def stepR (bound : Bool) (tbl : List MethodRec) (O : Oracles) (c : ClassOpts)
           | _, _ => (st.refs, st.cur)
         ({ st with attrs := res.1, refs := b.1, cur := b.2 }, res.2)
 
-def runR (bound : Bool) (tbl : List MethodRec) (O : Oracles) (c : ClassOpts)
+  | .assignRef f i =>
+    match st.refs[i]? with
+    | none => (st, .err (.other "AttributeError"))
+    | some w =>
+      if w.kind == "" then (st, .err (.other "AttributeError")) else   -- a take that found no wrapper
+      -- an ordinary validated assignment of the reference's content (a new wrapper is built)
+      let r := setattrStep O c fields st.attrs f w.payload
+      let b := match r.2 with
+        | .ok => afterPlain bound tbl O c fields st (.setattr f w.payload) r.1
+        | .err _ => (st.refs, st.cur)
+      ({ st with attrs := r.1, refs := b.1, cur := b.2 }, r.2)
+
+def runR (bound dh : Bool) (tbl : List MethodRec) (O : Oracles) (c : ClassOpts)
     (fields : List (String × FieldDecl)) : MState → List ROp → MState × List Outcome
   | st, [] => (st, [])
   | st, op :: rest =>
-    let r := stepR bound tbl O c fields st op
-    let t := runR bound tbl O c fields r.1 rest
+    let r := stepR bound dh tbl O c fields st op
+    let t := runR bound dh tbl O c fields r.1 rest
     (t.1, r.2 :: t.2)
 
 end Typedpy
